@@ -122,6 +122,9 @@ int read_elf(
     return -1;
   }
 
+  // Sizes and counts taken from the file can't be bigger than the file.
+  const uint64_t file_length = file.get_file_length();
+
   memset(e_ident, 0, 16);
   n = file.get_bytes(e_ident, 16);
 
@@ -357,6 +360,13 @@ int read_elf(
         }
       }
 
+      if ((uint64_t)elf_shdr.sh_size > file_length)
+      {
+        printf("Error: Section %s is bigger than the file.\n", name);
+        file.close_file();
+        return -1;
+      }
+
       long marker = file.tell();
       file.set(elf_shdr.sh_offset);
 
@@ -374,6 +384,13 @@ int read_elf(
       else
     if (elf_shdr.sh_type == SHT_SYMTAB && symbols != NULL)
     {
+      if ((uint64_t)elf_shdr.sh_size > file_length)
+      {
+        printf("Error: Symbol table is bigger than the file.\n");
+        file.close_file();
+        return -1;
+      }
+
       long marker = file.tell();
       file.set(elf_shdr.sh_offset);
 
